@@ -153,3 +153,162 @@ package ristretto
 //@   ensures [C18] #wf wfTiny(result) && result.incrs == 0 && result.resetAt == numCounters
 //@   ensures [C18] #size result.freq.mask+1 == uint64(next2Power(numCounters))
 //@   ensures [C18] #zero forall y uint64 :: est(result.freq, y) == 0
+
+// ---------------------------------------------------------------- cache.go: Metrics (C17)
+//
+// Metric cells and maxCost are accessed with sync/atomic from several goroutines:
+// an atomic load yields an arbitrary value, an atomic store has no effect on the
+// sequential state that is verified.  What the policy code may rely on is stated
+// with `assumes` clauses against two ghost variables.
+//@ shared cell uint64
+//@ shared sampledLFU.maxCost
+//@ decl var gcMtot map[*Metrics][doNotUse]uint64 // ghost: running total of every metric
+//@ decl var gcMaxCostLast int64                  // ghost: the last value read from maxCost
+
+//@ spec wfMetrics(p *Metrics) bool = p != nil && forall t, j int :: 0 <= t && t < doNotUse && 0 <= j && j < 256 ==> len(p.all[t]) == 256 && p.all[t][j] != nil
+//@ spec opaque mtot(p *Metrics, t metricType) uint64 = gcMtot[p][t]
+
+//@ func (p *Metrics) add(t metricType, hash, delta uint64)
+//@   requires (p == nil || wfMetrics(p)) && 0 <= t && t < doNotUse
+//@   modifies gcMtot[*]
+//@   assumes [C17] p != nil ==> mtot(p, t) == old(mtot(p, t)) + delta
+//@   assumes [C17] forall q *Metrics, u metricType :: (q != p || u != t || p == nil) ==> mtot(q, u) == old(mtot(q, u))
+
+// ---------------------------------------------------------------- policy.go: sampledLFU (C03, C09, C13, C17)
+
+//@ spec wfLFU(e *sampledLFU) bool = e != nil && e.keyCosts != nil && e.used == gcSum(e.keyCosts) && (e.metrics == nil || wfMetrics(e.metrics))
+
+//@ func (p *sampledLFU) getMaxCost() int64
+//@   requires p != nil
+//@   modifies gcMaxCostLast
+//@   assumes [C03] result >= old(gcMaxCostLast) && gcMaxCostLast == result
+
+//@ func (p *sampledLFU) add(key uint64, cost int64)
+//@   requires wfLFU(p) && !gcHas(p.keyCosts, key)
+//@   modifies p.used, p.keyCosts[*]
+//@   ensures [C03] #wf wfLFU(p) && p.used == old(p.used)+cost
+//@   ensures [C03,C13] #map gcHas(p.keyCosts, key) && p.keyCosts[key] == cost && gcCard(p.keyCosts) == old(gcCard(p.keyCosts))+1
+//@   ensures [C03,C13] #frame forall k uint64 :: k != key ==> gcHas(p.keyCosts, k) == old(gcHas(p.keyCosts, k)) && p.keyCosts[k] == old(p.keyCosts[k])
+
+//@ func (p *sampledLFU) del(key uint64)
+//@   requires wfLFU(p)
+//@   modifies p.used, p.keyCosts[*], gcMtot[*]
+//@   ensures [C03] #wf wfLFU(p)
+//@   ensures [C03] #used p.used == old(p.used)-ite(old(gcHas(p.keyCosts, key)), old(p.keyCosts[key]), int64(0))
+//@   ensures [C03,C13] #map !gcHas(p.keyCosts, key) && gcCard(p.keyCosts) == old(gcCard(p.keyCosts))-ite(old(gcHas(p.keyCosts, key)), 1, 0)
+//@   ensures [C03,C13] #frame forall k uint64 :: k != key ==> gcHas(p.keyCosts, k) == old(gcHas(p.keyCosts, k)) && p.keyCosts[k] == old(p.keyCosts[k])
+//@   ensures [C17] #evict old(gcHas(p.keyCosts, key)) && p.metrics != nil ==> mtot(p.metrics, costEvict) == old(mtot(p.metrics, costEvict))+uint64(old(p.keyCosts[key])) && mtot(p.metrics, keyEvict) == old(mtot(p.metrics, keyEvict))+1
+//@   ensures [C17] #others forall q *Metrics, u metricType :: (q != p.metrics || (u != costEvict && u != keyEvict) || !old(gcHas(p.keyCosts, key))) ==> mtot(q, u) == old(mtot(q, u))
+
+//@ func (p *sampledLFU) updateIfHas(key uint64, cost int64) bool
+//@   requires wfLFU(p)
+//@   modifies p.used, p.keyCosts[*], gcMtot[*]
+//@   ensures [C03] #wf wfLFU(p)
+//@   ensures [C03] #result result == old(gcHas(p.keyCosts, key))
+//@   ensures [C03] #used p.used == old(p.used)+ite(result, cost-old(p.keyCosts[key]), int64(0))
+//@   ensures [C03,C13] #map gcHas(p.keyCosts, key) == old(gcHas(p.keyCosts, key)) && (result ==> p.keyCosts[key] == cost) && gcCard(p.keyCosts) == old(gcCard(p.keyCosts))
+//@   ensures [C03,C13] #frame forall k uint64 :: k != key ==> gcHas(p.keyCosts, k) == old(gcHas(p.keyCosts, k)) && p.keyCosts[k] == old(p.keyCosts[k])
+//@   ensures [C17] #costdelta result && p.metrics != nil ==> mtot(p.metrics, costAdd) == old(mtot(p.metrics, costAdd))+uint64(cost-old(p.keyCosts[key])) && mtot(p.metrics, keyUpdate) == old(mtot(p.metrics, keyUpdate))+1
+//@   ensures [C17] #others forall q *Metrics, u metricType :: (q != p.metrics || (u != costAdd && u != keyUpdate) || !result) ==> mtot(q, u) == old(mtot(q, u))
+
+//@ func (p *sampledLFU) clear()
+//@   requires p != nil && (p.metrics == nil || wfMetrics(p.metrics))
+//@   modifies p.used, p.keyCosts
+//@   ensures [C03,C13,C15] #empty wfLFU(p) && p.used == 0 && gcCard(p.keyCosts) == 0 && forall k uint64 :: !gcHas(p.keyCosts, k)
+
+// A sample is a list of (key, cost) pairs describing resident keys.
+//@ spec samplePairOK(e *sampledLFU, pp *policyPair) bool = pp != nil && gcAllocated(pp) && gcHas(e.keyCosts, pp.key) && pp.cost == e.keyCosts[pp.key]
+//@ spec sampleOK(e *sampledLFU, s []*policyPair) bool = forall i int :: 0 <= i && i < len(s) ==> samplePairOK(e, s[i])
+//@ spec sampleDistinct(s []*policyPair) bool = forall i, j int :: 0 <= i && i < j && j < len(s) ==> s[i].key != s[j].key
+
+//@ func (p *sampledLFU) fillSample(in []*policyPair) []*policyPair
+//@   requires wfLFU(p) && sampleOK(p, in) && len(in) <= 5
+//@   modifies in[*]
+//@   loop 1 invariant len(in0) <= len(in) && len(in) < 5 && (gcSameArray(in, in0) || gcFresh(in))
+//@   loop 1 invariant forall i int :: 0 <= i && i < len(in0) ==> in[i] == old(in0[i])
+//@   loop 1 invariant sampleOK(p, in)
+//@   loop 1 invariant old(sampleDistinct(in0)) ==> sampleDistinct(in)
+//@   loop 2 modifies nothing
+//@   loop 2 invariant forall j int :: 0 <= j && j <= rangeindex && j < len(in) ==> in[j].key != key
+//@   ensures [C09] #prefix len(result) >= len(in) && len(result) <= 5 && forall i int :: 0 <= i && i < len(in) ==> result[i] == old(in[i])
+//@   ensures [C09] #resident sampleOK(p, result)
+//@   ensures #storage gcSameArray(result, in) || gcFresh(result)
+//@   ensures [C09,C04] #distinct old(sampleDistinct(in)) ==> sampleDistinct(result)
+
+// ---------------------------------------------------------------- policy.go: defaultPolicy (C03, C09, C13, C17)
+//
+// Everything the policy mutex guards, and the invariant every critical section
+// re-establishes before it releases the mutex (checked at every Unlock).
+//@ lockinv [C03,C08] defaultPolicy.Mutex (p): p.admit != nil && wfTiny(p.admit) && wfLFU(p.evict) && z.GcMaskOK()
+//@ guards p.evict.used, p.evict.keyCosts[*], p.admit.incrs, z.GcBloomBits(p.admit.door)[*], p.admit.door.ElemNum, p.admit.freq.rows[0][*], p.admit.freq.rows[1][*], p.admit.freq.rows[2][*], p.admit.freq.rows[3][*]
+
+//@ func (p *defaultPolicy) Has(key uint64) bool
+//@   atomic
+//@   requires p != nil
+//@   ensures [C13] result == gcHas(p.evict.keyCosts, key)
+
+//@ func (p *defaultPolicy) Del(key uint64)
+//@   atomic
+//@   requires p != nil
+//@   modifies p.evict.used, p.evict.keyCosts[*], gcMtot[*]
+//@   ensures [C03,C13] #gone !gcHas(p.evict.keyCosts, key) && wfLFU(p.evict)
+//@   ensures [C03] #used p.evict.used == old(p.evict.used)-ite(old(gcHas(p.evict.keyCosts, key)), old(p.evict.keyCosts[key]), int64(0))
+//@   ensures [C13] #frame forall k uint64 :: k != key ==> gcHas(p.evict.keyCosts, k) == old(gcHas(p.evict.keyCosts, k)) && p.evict.keyCosts[k] == old(p.evict.keyCosts[k])
+
+//@ func (p *defaultPolicy) Cap() int64
+//@   atomic
+//@   requires p != nil
+//@   modifies gcMaxCostLast
+//@   ensures [C03] #remaining result == gcMaxCostLast-gcSum(p.evict.keyCosts) && gcMaxCostLast >= old(gcMaxCostLast)
+
+//@ func (p *defaultPolicy) Update(key uint64, cost int64)
+//@   atomic
+//@   requires p != nil
+//@   modifies p.evict.used, p.evict.keyCosts[*], gcMtot[*]
+//@   ensures [C03,C13] #map wfLFU(p.evict) && gcHas(p.evict.keyCosts, key) == old(gcHas(p.evict.keyCosts, key)) && (gcHas(p.evict.keyCosts, key) ==> p.evict.keyCosts[key] == cost)
+//@   ensures [C03] #used p.evict.used == old(p.evict.used)+ite(old(gcHas(p.evict.keyCosts, key)), cost-old(p.evict.keyCosts[key]), int64(0))
+//@   ensures [C13] #frame forall k uint64 :: k != key ==> gcHas(p.evict.keyCosts, k) == old(gcHas(p.evict.keyCosts, k)) && p.evict.keyCosts[k] == old(p.evict.keyCosts[k])
+
+//@ func (p *defaultPolicy) Cost(key uint64) int64
+//@   atomic
+//@   requires p != nil
+//@   ensures [C13] result == ite(gcHas(p.evict.keyCosts, key), p.evict.keyCosts[key], int64(-1))
+
+//@ func (p *defaultPolicy) Clear()
+//@   atomic
+//@   requires p != nil
+//@   modifies p.evict.used, p.evict.keyCosts, p.admit.incrs, z.GcBloomBits(p.admit.door)[*], p.admit.freq.rows[0][*], p.admit.freq.rows[1][*], p.admit.freq.rows[2][*], p.admit.freq.rows[3][*]
+//@   ensures [C03,C13,C15] #empty p.evict.used == 0 && gcCard(p.evict.keyCosts) == 0 && forall k uint64 :: !gcHas(p.evict.keyCosts, k)
+//@   ensures [C15,C18] #sketch p.admit.incrs == 0 && (forall y uint64 :: est(p.admit.freq, y) == 0) && forall x uint64 :: x <= z.GcBloomSize(p.admit.door) ==> !z.GcBit(p.admit.door, x)
+
+//@ func (p *defaultPolicy) Add(key uint64, cost int64) ([]*Item[V], bool)
+//@   atomic
+//@   requires p != nil && (p.metrics == nil || wfMetrics(p.metrics)) && p.evict.metrics == p.metrics
+//@   modifies p.evict.used, p.evict.keyCosts[*], gcMtot[*], gcMaxCostLast
+//@   loop 1 invariant #state wfLFU(p.evict) && wfTiny(p.admit) && !gcHas(p.evict.keyCosts, key) && p.evict.metrics == p.metrics
+//@   loop 1 invariant #room room == gcMaxCostLast-(p.evict.used+cost) && cost <= gcMaxCostLast
+//@   loop 1 invariant #sample sampleOK(p.evict, sample) && sampleDistinct(sample) && len(sample) <= 5 && gcFresh(sample)
+//@   loop 1 invariant #est incHits == tinyEst(p.admit, key) && 0 <= incHits && incHits <= 16
+//@   loop 1 invariant #victims forall i int :: 0 <= i && i < len(victims) ==> victims[i] != nil && gcFresh(victims[i]) && gcAllocated(victims[i])
+//@   loop 1 invariant #vgone forall i int :: 0 <= i && i < len(victims) ==> !gcHas(p.evict.keyCosts, victims[i].Key) && victims[i].Key != key
+//@   loop 1 invariant #vwas forall i int, k uint64 :: 0 <= i && i < len(victims) && k == victims[i].Key ==> old(gcHas(p.evict.keyCosts, k)) && victims[i].Cost == old(p.evict.keyCosts[k]) && victims[i].Conflict == 0
+//@   loop 1 invariant #shrink forall k uint64 :: gcHas(p.evict.keyCosts, k) ==> old(gcHas(p.evict.keyCosts, k)) && p.evict.keyCosts[k] == old(p.evict.keyCosts[k])
+//@   loop 1 invariant #vdistinct forall i, j int :: 0 <= i && i < j && j < len(victims) ==> victims[i].Key != victims[j].Key
+//@   loop 1 invariant #vfresh gcFresh(victims)
+//@   loop 2 modifies nothing
+//@   loop 2 invariant #init rangeindex == -1 ==> minHits == 9223372036854775807
+//@   loop 2 invariant #min forall j int :: 0 <= j && j <= rangeindex && j < len(sample) ==> minHits <= tinyEst(p.admit, sample[j].key)
+//@   loop 2 invariant #argmin rangeindex >= 0 ==> 0 <= minId && minId <= rangeindex && minId < len(sample) && minKey == sample[minId].key && minCost == sample[minId].cost && minHits == tinyEst(p.admit, minKey)
+//@   at call del#1 assert [C09] #victim-in-sample minId < len(sample) && minKey == sample[minId].key && samplePairOK(p.evict, sample[minId])
+//@   at call del#1 assert [C09] #victim-cost minCost == p.evict.keyCosts[minKey]
+//@   at call del#1 assert [C09] #victim-below-newcomer tinyEst(p.admit, minKey) <= tinyEst(p.admit, key)
+//@   at call del#1 assert [C09] #victim-least forall j int :: 0 <= j && j < len(sample) ==> tinyEst(p.admit, minKey) <= tinyEst(p.admit, sample[j].key)
+//@   at call add#3 assert [C09] #reject-lower tinyEst(p.admit, key) < minHits && forall j int :: 0 <= j && j < len(sample) ==> minHits <= tinyEst(p.admit, sample[j].key)
+//@   ensures [C03] #fits result1 ==> gcMaxCostLast-p.evict.used >= 0 && cost <= gcMaxCostLast
+//@   ensures [C03,C13] #admitted result1 ==> gcHas(p.evict.keyCosts, key) && p.evict.keyCosts[key] == cost && !old(gcHas(p.evict.keyCosts, key))
+//@   ensures [C13] #notadmitted !result1 ==> gcHas(p.evict.keyCosts, key) == old(gcHas(p.evict.keyCosts, key))
+//@   ensures [C03] #wf wfLFU(p.evict)
+//@   ensures [C09] #fastpath !old(gcHas(p.evict.keyCosts, key)) && 0 <= cost && cost < 1<<62 && 0 <= old(p.evict.used) && old(p.evict.used) < 1<<62 && cost <= old(gcMaxCostLast) && old(gcMaxCostLast)-(old(p.evict.used)+cost) >= 0 ==> result1 && len(result0) == 0 && forall k uint64 :: k != key ==> gcHas(p.evict.keyCosts, k) == old(gcHas(p.evict.keyCosts, k)) && p.evict.keyCosts[k] == old(p.evict.keyCosts[k])
+//@   ensures [C09,C13] #victims forall i int, k uint64 :: 0 <= i && i < len(result0) && k == result0[i].Key ==> result0[i] != nil && !gcHas(p.evict.keyCosts, k) && old(gcHas(p.evict.keyCosts, k)) && result0[i].Cost == old(p.evict.keyCosts[k]) && result0[i].Conflict == 0
+//@   ensures [C04,C09] #victims-distinct forall i, j int :: 0 <= i && i < j && j < len(result0) ==> result0[i].Key != result0[j].Key
+//@   ensures [C13] #others forall k uint64 :: k != key && gcHas(p.evict.keyCosts, k) ==> old(gcHas(p.evict.keyCosts, k)) && p.evict.keyCosts[k] == old(p.evict.keyCosts[k])
